@@ -3,10 +3,10 @@ CC=cc
 all: shim/vshim.so shim/standin
 
 shim/vshim.so: shim/vshim.c
-	$(CC) -O1 -g -shared -fPIC -o $@ shim/vshim.c -ldl
+	$(CC) -O1 -g -shared -fPIC -o $@.tmp shim/vshim.c -ldl && mv -f $@.tmp $@
 
 shim/standin: shim/standin.c
-	$(CC) -O1 -g -o $@ shim/standin.c
+	$(CC) -O1 -g -o $@.tmp shim/standin.c && mv -f $@.tmp $@
 
 clean:
 	rm -f shim/vshim.so shim/standin shim/*.o
